@@ -154,6 +154,25 @@ Definition config_obs (r : rawcfg) (e : envc) : bytes :=
                  ++ ks (k_session_enc k)
   end.
 
+(** [serving] (C18) cases: what a started instance serves; only the mechanism switches matter. *)
+Definition serving_obs (openid kerberos local ntlm tls_disable : bool) : bytes :=
+  let r := {| r_openid := openid; r_kerberos := kerberos; r_local := local; r_ntlm := ntlm; r_tls_disable := tls_disable;
+              r_hostsel := []; r_querykey_len := 0; r_hosts := 1; r_keytab_set := kerberos; r_tokenauth := true;
+              r_enable_usertoken := false; r_paa_enc_len := 0; r_paa_sign_len := 0; r_user_enc_len := 0;
+              r_session_len := 0; r_session_enc_len := 0 |} in
+  let s := serves r in
+  str "openid=" ++ b01 (sv_openid_routes s) ++ str " basic=" ++ b01 (sv_basic s) ++ str " ntlm=" ++ b01 (sv_ntlm s)
+  ++ str " negotiate=" ++ b01 (sv_negotiate s).
+
+(** [handshakegw] (C16, C17) cases: one handshake against the real binary. *)
+Definition handshakegw_obs (sc tok : bool) (body : bytes) : bytes :=
+  let c := {| c_token_auth := tok; c_smartcard := sc; c_cookie_cb := false; c_name_cb := false; c_host_cb := false;
+              c_redir := no_redir; c_idle := 0%Z |} in
+  let a := {| a_cookie := false; a_name := false; a_host := false; a_dial := false |} in
+  let items := [RData (create_packet PKT_TYPE_HANDSHAKE_REQUEST body) a; RErr] in
+  let raws := List.concat (map (fun e => match e with Resp _ _ raw => [hex raw] | _ => [] end) (run c items)) in
+  str "R=" ++ dash raws ++ str " X=" ++ b01 (Nat.ltb (consumed c items) 2).
+
 (** [ntlm] (C14) cases: histories over the symbolic verifier. *)
 From RDPGW Require Import Model.Ntlm.
 
